@@ -284,6 +284,28 @@ fn histories(tier: &str, seed: u64, allow_ext: bool) -> Vec<Vec<HOp>> {
         }
         out.push(h);
     }
+    // squeeze-phase families: after k observes, a base-granularity draws consume part of one squeeze,
+    // then b draws follow with NO observe in between, so that base and extension draws straddle the
+    // squeeze boundary in every alignment (output buffer length not a multiple of the degree)
+    let draws: Vec<HOp> = if allow_ext { vec![HOp::Sample, HOp::SampleExt, HOp::SampleBits(5), HOp::CheckPow(1)] } else { vec![HOp::Sample, HOp::SampleBits(5), HOp::CheckPow(1)] };
+    for k in [0usize, 3, 8, 9] {
+        for first in &draws {
+            for a in 1..=3usize {
+                for second in &draws {
+                    for b in 2..=(if tier == "thorough" { 5 } else { 3 }) {
+                        if first == second {
+                            continue;
+                        }
+                        let mut h = vec![HOp::Observe; k];
+                        h.extend(std::iter::repeat(first.clone()).take(a));
+                        h.extend(std::iter::repeat(second.clone()).take(b));
+                        h.push(HOp::Sample);
+                        out.push(h);
+                    }
+                }
+            }
+        }
+    }
     // the named regression shape: duplex, clear, observe, sample
     let mut h = vec![HOp::Observe; 8];
     h.extend([HOp::Sample, HOp::Clear, HOp::Observe, HOp::Observe, HOp::Observe, HOp::Sample]);
